@@ -73,8 +73,29 @@ def generate(prop, seed):
                 progs[ti].append(['status'])
             else:
                 progs[ti].append(['exception'])
-    return {'programs': progs, 'strategy': gen_strategy(rng, 100),
-            'sched_seed': rng.randrange(1 << 62), 'seed': seed, 'prop': prop}
+    sc = {'programs': progs, 'strategy': gen_strategy(rng, 100),
+          'sched_seed': rng.randrange(1 << 62), 'seed': seed, 'prop': prop}
+    if rng.random() < 0.2:
+        # statement-level pre-emption: no set_result / override, so the first
+        # recorded failure is final; an extra thread blocks in result()
+        sc['mode'] = 'waiter'
+        # (announce_done is only issued after a failure in the same thread's
+        # program order, as the library does: never before the outcome exists)
+        keep = ('queued', 'running', 'set_exception', 'cancel', 'done',
+                'status', 'exception', 'add_done_cb')
+        sc['programs'] = [[op for op in p if op[0] in keep] for p in progs]
+        if not any(op[0] in ('set_exception', 'cancel') for p in sc['programs'] for op in p):
+            sc['programs'][0].append(['set_exception', 99])
+        sc['programs'] = [p + [['announce']] if any(op[0] in ('set_exception', 'cancel')
+                                                   for op in p) and rng.random() < 0.7 else p
+                          for p in sc['programs']]
+        # the final task's behaviour: it announces as soon as it sees done()
+        for p in sc['programs']:
+            for _ in range(rng.randint(0, 3)):
+                p.insert(rng.randint(0, len(p)), ['announce_if_done'])
+        if rng.random() < 0.5:
+            sc['programs'].append([['announce_if_done']] * rng.randint(2, 5))
+    return sc
 
 
 def model_step(state, op, args):
@@ -156,6 +177,8 @@ def execute(sc, choices=None, lenient=False):
         h['ret'] = sim.stamp()
         return h
 
+    waiter_mode = sc.get('mode') == 'waiter'
+
     def main():
         coord = TransferCoordinator(transfer_id=1)
         fut = TransferFuture(coordinator=coord)
@@ -199,6 +222,12 @@ def execute(sc, choices=None, lenient=False):
                     announces.append(a)
                     record(k, (), coord.announce_done)
                     a[1] = sim.stamp()
+                elif k == 'announce_if_done':
+                    if coord.done():
+                        a = [sim.stamp(), None]
+                        announces.append(a)
+                        record('announce', (), coord.announce_done)
+                        a[1] = sim.stamp()
                 elif k == 'add_done_cb':
                     cb = mk_cb('d')
                     name = last_cb[0]
@@ -217,16 +246,43 @@ def execute(sc, choices=None, lenient=False):
                     record(k, (), lambda: _exc_key(coord.exception))
 
         threads = [th.Thread(target=worker, args=(p,)) for p in sc['programs']]
+        waiter_out = []
+        if waiter_mode:
+            def waiter():
+                try:
+                    v = fut.result()
+                    waiter_out.append(('ok', v, sim.stamp()))
+                except kernel.SimAbort:
+                    raise
+                except BaseException as x:   # noqa
+                    waiter_out.append(('exc', x, sim.stamp()))
+            wt = th.Thread(target=waiter)
+            wt._sim_role = 'waiter'
+            threads.append(wt)
         for t in threads:
-            t._sim_role = 'worker'
+            t._sim_role = getattr(t, '_sim_role', None) or 'worker'
             t.start()
-        for t in threads:
+        for t in threads[:len(sc['programs'])]:
             t.join()
         # final phase: announce, then status / exception / result() must agree
         a = [sim.stamp(), None]
         announces.append(a)
         coord.announce_done()
         a[1] = sim.stamp()
+        if waiter_mode:
+            threads[-1].join()
+            w0 = waiter_out[0]
+            final = coord.exception
+            if coord.status in ('failed', 'cancelled'):
+                if w0[0] == 'ok':
+                    violations.append(['C17', 'result-returned-for-failed-transfer',
+                                       'a waiter\'s result() returned %r although the transfer '
+                                       'was %s with %r once done was announced'
+                                       % (w0[1], coord.status, final), {}])
+                elif w0[1] is not final:
+                    violations.append(['C17', 'result-raises-other',
+                                       'a waiter\'s result() raised %r, the recorded (first) '
+                                       'failure is %r' % (w0[1], final), {}])
         st = coord.status
         if st in DONE:
             e = coord.exception
@@ -249,7 +305,16 @@ def execute(sc, choices=None, lenient=False):
                     violations.append(['C17', 'result-raises-other',
                                        'result() raised %r, stored exception is %r' % (x, e), {}])
 
-    sim.run(main)
+    lp = False
+    if waiter_mode:
+        from . import linepre
+        lp = linepre.enable()
+        sim.max_steps *= 25
+    try:
+        sim.run(main)
+    finally:
+        if lp:
+            linepre.disable()
     simstd.reset_between_runs()
     from .world import collect_between_runs
     collect_between_runs()
@@ -264,7 +329,15 @@ def execute(sc, choices=None, lenient=False):
     for e in sim.thread_errors:
         harness.append(('thread-exception', e[2]))
     lin_nodes = 0
-    if not harness and f is None:
+    if not harness and f is None and waiter_mode:
+        last = {}
+        for h in hist:
+            if h['op'] == 'done' and h['res'] and h['res'][0] == 'ok':
+                if last.get(h['tid']) and not h['res'][1]:
+                    violations.append(['C17', 'done-went-false',
+                                       'thread %d saw done() True and later False' % h['tid'], {}])
+                last[h['tid']] = h['res'][1]
+    if not harness and f is None and not waiter_mode:
         try:
             ok, order, lin_nodes = linearizable(
                 hist, ('not-started', None, None), model_step)
